@@ -752,7 +752,7 @@ class C32(Check):
         self.vet_templates(arch, res)
         n = {"x86_32": 80, "arml": 90, "mips32l": 110, "msp430": 170}[arch]
         if tier == "thorough":
-            n *= 12
+            n *= 4
         cnt = [0]
 
         def one(spec):
